@@ -3,6 +3,7 @@ import Ymq.Props.C12
 #print axioms Ymq.C12.siqs_identity_model
 #print axioms Ymq.C12.eval_eq_polyVal
 #print axioms Ymq.C12.siqs_B_sq
+#print axioms Ymq.C12.walk_B_sq
 #print axioms Ymq.C12.min_trick
 #print axioms Ymq.C12.gray_step
 #print axioms Ymq.C12.roots_inv
